@@ -29,6 +29,20 @@ theorem export_releases (p : String × List Stmt) (hp : p ∈ Generated.ExportLo
 /-- hence a subsequent writer (line processing taking `m.Lock()`) is not blocked by this export -/
 theorem writer_not_blocked (c : C) (h : Good c) : c.readers = 0 := h.1
 
+/-- **the JSON export** (`HandleJSON` → `Store.MarshalJSON`, regenerated): whatever the encoder
+    answers — success, or a value JSON cannot represent such as NaN or ±Inf — the attempt ends with
+    the store's lock and every metric's lock released, and the handler itself takes none. -/
+theorem json_export_releases :
+    runJ Generated.ExportLocks.marshalJSON {} [] = some { store := 0, metrics := 0, collected := true } ∧
+      Generated.ExportLocks.jsonHandlerLockOps = 0 := by decide
+
+/-- the check is not vacuous: locking each metric inside the encoding loop and returning on an
+    encoder error (statements the model does not know) is not accepted, and forgetting the deferred
+    release leaves every metric read-locked -/
+example : runJ [.rlockStore, .deferRUnlockStore, .decl, .collect, .unknown, .retMarshal] {} [] = none := by decide
+example : runJ [.rlockStore, .deferRUnlockStore, .decl, .collect, .rlockAll, .retMarshal] {} [] =
+    some { store := 0, metrics := 1, collected := true } := by decide
+
 /-- non-vacuity: the Prometheus collector loop on a metric with 3 label sets, with the second
     label set unrepresentable, finishes (does not run out of fuel) and is `Good` -/
 example : (exec 3 200 Generated.ExportLocks.collect ⟨0, .none, false⟩
